@@ -38,7 +38,8 @@ if [ $# -gt 0 ]; then
   git -C /repo checkout -- .
 fi
 if [ "$suite" != fail ] && [ $dwith = fail ] && [ $dwithout = pass ]; then
-  d=/verif/seeded/$prop-m$k; mkdir -p $d
+  round=""; case "$out" in *seed2*) round="r2";; *seed3*) round="r3";; esac
+  d=/verif/seeded/$prop-${round}m$k; mkdir -p $d
   cp $diff $d/patch.diff; cp $demo $d/demo_test.go
   python3 - "$meta" "$d/meta.json" "$suite" "[${results%,}]" "$(git -C /repo rev-parse --short HEAD)" <<'PY'
 import json,sys
